@@ -131,7 +131,7 @@ Proof.
     destruct Pv as [Pv|(Hb & _)]; [left; auto | unfold b in *; unfold nv in *; lia].
   - (* no nodes *)
     intros b ON sc vis h cur h' cur' nids S0 _ H. cbn in H. inversion H; subst.
-    repeat split; auto using step_refl; try constructor; try (intros n []); destruct S0; auto.
+    split; auto. split; [apply step_refl|]. split; auto. split; [constructor | intros n []].
   - (* node :: nodes *)
     intros n IHn r IHr b ON sc vis h cur h' cur' nids S0 [NO1 NOr] H. cbn in H.
     destruct (deser_node n cur sc vis h) as [[[h1 c1] nid]|e] eqn:E1; [|discriminate].
